@@ -377,6 +377,7 @@ func (s *Sys) elemFn() func(int) (int, error) {
 	return func(x int) (int, error) {
 		s.E.Enter(s.Calls, x)
 		if s.P.Mode != "pure" && s.fails(s.indexOf(x)) {
+			s.E.Fault("fn_error")
 			return 0, elemErr{x}
 		}
 		return mapImg(s.P.Fn, x), nil
@@ -401,6 +402,7 @@ func (s *Sys) arrowFn() func(context.Context, int, chan<- int) error {
 	return func(ctx context.Context, x int, out chan<- int) error {
 		s.E.Enter(s.Calls, x)
 		if s.P.Mode != "pure" && s.fails(s.indexOf(x)) {
+			s.E.Fault("fn_error")
 			return elemErr{x}
 		}
 		for _, y := range fmapImg(s.P.Fn, x) {
@@ -422,6 +424,7 @@ func (s *Sys) genFn(unfold bool) func(int) (int, error) {
 			return 0, nil
 		}
 		if s.P.Mode != "pure" && s.fails(idx) {
+			s.E.Fault("fn_error")
 			return 0, elemErr{idx}
 		}
 		if unfold {
@@ -490,6 +493,18 @@ func (s *Sys) consumeErr(ch <-chan error) {
 				"%s: error %d is %v, expected errors %v", s.P.Stage, i, err, s.M.Errs)
 		}
 	})
+}
+
+// outErr hooks up a (values, errors) pair: either both are consumed by
+// environment tasks, or — variant "stderr" — the library's own StdErr drains
+// the error channel.
+func (s *Sys) outErr(out <-chan int, exx <-chan error) {
+	if s.P.X("stderr") == 1 {
+		s.consumeOut(pipe.StdErr(out, exx))
+		return
+	}
+	s.consumeOut(out)
+	s.consumeErr(exx)
 }
 
 func (s *Sys) consumeDone(ch <-chan struct{}) {
@@ -579,9 +594,7 @@ func BuildStage(e *driver.Env, clause string) *Sys {
 		par := p.Par
 		switch stage {
 		case "Map":
-			out, exx := fork.Map(ctx, par, s.input(0), forkF(p.Mode, s.elemFn()))
-			s.consumeOut(out)
-			s.consumeErr(exx)
+			s.outErr(fork.Map(ctx, par, s.input(0), forkF(p.Mode, s.elemFn())))
 		case "FMap":
 			var ff fork.FF[int, int]
 			if p.Mode == "try" {
@@ -589,9 +602,7 @@ func BuildStage(e *driver.Env, clause string) *Sys {
 			} else {
 				ff = fork.LiftF(s.arrowFn())
 			}
-			out, exx := fork.FMap(ctx, par, s.input(0), ff)
-			s.consumeOut(out)
-			s.consumeErr(exx)
+			s.outErr(fork.FMap(ctx, par, s.input(0), ff))
 		case "Filter":
 			s.consumeOut(fork.Filter(ctx, par, s.input(0), forkF("lift", s.predFn())))
 		case "Partition":
@@ -613,9 +624,7 @@ func BuildStage(e *driver.Env, clause string) *Sys {
 	}
 	switch stage {
 	case "Map":
-		out, exx := pipe.Map(ctx, s.input(0), pipeF(p.Mode, s.elemFn()))
-		s.consumeOut(out)
-		s.consumeErr(exx)
+		s.outErr(pipe.Map(ctx, s.input(0), pipeF(p.Mode, s.elemFn())))
 	case "StdErr":
 		out, exx := pipe.Map(ctx, s.input(0), pipeF(p.Mode, s.elemFn()))
 		s.consumeOut(pipe.StdErr(out, exx))
@@ -626,9 +635,7 @@ func BuildStage(e *driver.Env, clause string) *Sys {
 		} else {
 			ff = pipe.LiftF(s.arrowFn())
 		}
-		out, exx := pipe.FMap(ctx, s.input(0), ff)
-		s.consumeOut(out)
-		s.consumeErr(exx)
+		s.outErr(pipe.FMap(ctx, s.input(0), ff))
 	case "Filter":
 		s.consumeOut(pipe.Filter(ctx, s.input(0), pipeF("lift", s.predFn())))
 	case "Take":
@@ -670,13 +677,9 @@ func BuildStage(e *driver.Env, clause string) *Sys {
 	case "Throttling":
 		s.consumeOut(pipe.Throttling(ctx, s.input(0), p.N, freq))
 	case "Emit":
-		out, exx := pipe.Emit(ctx, p.Cap, freq, pipeF(p.Mode, s.genFn(false)))
-		s.consumeOut(out)
-		s.consumeErr(exx)
+		s.outErr(pipe.Emit(ctx, p.Cap, freq, pipeF(p.Mode, s.genFn(false))))
 	case "Unfold":
-		out, exx := pipe.Unfold(ctx, p.Cap, p.FnArg, pipeF(p.Mode, s.genFn(true)))
-		s.consumeOut(out)
-		s.consumeErr(exx)
+		s.outErr(pipe.Unfold(ctx, p.Cap, p.FnArg, pipeF(p.Mode, s.genFn(true))))
 	default:
 		panic("unknown stage " + stage)
 	}
